@@ -347,24 +347,14 @@ class Union:
         self.__args__ = self.types = types
 
     def codegen(self):
-        from .dependent import (
-            CodeGen,
-            DependentType,
-            combine,
-            generate_checking_code,
-        )
+        from .dependent import combine, guarded_checking_code
 
-        def member(t):
-            cg = generate_checking_code(t)
-            if isinstance(t, DependentType):
-                # The value may only match another member of the union: the
-                # condition must not see what is not an instance of its bound
-                bound = CodeGen("isinstance({arg}, {bound})", bound=t.bound)
-                return combine("{} and {}", [bound, cg])
-            return cg
-
+        # The value may only match another member of the union: a condition
+        # must not see what is not an instance of its bound
         template = " or ".join("{}" for t in self.types)
-        return combine(template, [member(t) for t in self.types])
+        return combine(
+            template, [guarded_checking_code(t) for t in self.types]
+        )
 
     def __type_order__(self, other):
         if other is Union:
@@ -410,15 +400,14 @@ class Intersection:
         self.__args__ = self.types = types
 
     def codegen(self):
-        from .dependent import combine, generate_checking_code
-
-        from .dependent import is_dependent
+        from .dependent import combine, guarded_checking_code, is_dependent
 
         # Plain types first: the value-dependent members then only see
-        # values that are instances of the plain ones
+        # values that are instances of the plain ones, and of their own bound
+        # (the intersection may itself be a member of a union)
         types = sorted(self.types, key=is_dependent)
         template = " and ".join("{}" for t in types)
-        return combine(template, [generate_checking_code(t) for t in types])
+        return combine(template, [guarded_checking_code(t) for t in types])
 
     def __type_order__(self, other):
         if other is Intersection:
